@@ -30,7 +30,7 @@ const c03Consts = "const KV = 10\nconst KW = 7\n"
 
 const (
 	c03Bodies     = 9
-	c03BodiesLoop = 11
+	c03BodiesLoop = 12
 	c03Contexts   = 10
 )
 
@@ -61,6 +61,8 @@ func c03Body(b, i int, pre *[]model.Stmt) []model.Stmt {
 		return []model.Stmt{{Kind: model.SLabel, Name: l}, mcmd(c)}
 	case 8:
 		return []model.Stmt{mcmd(c), {Kind: model.SEnd}}
+	case 11: // the whole body is a break: the case does nothing (it does not share the next case's body the way an empty one does)
+		return []model.Stmt{{Kind: model.SBreak}}
 	case 10: // the body ends in a hand-written conditional jump (when the flag is unset the body ends like any other)
 		return []model.Stmt{mcmd(c), {Kind: model.SGotoIf, Name: "EXT", Flag: fmt.Sprintf("J%d", i), WantSet: true}}
 	default: // 9: only in loop contexts
@@ -388,6 +390,64 @@ func runC03(tier string) int {
 	if !scaledDone {
 		r.NotExhaustive("scaled switch programs not completed")
 	}
+	// every 'break' (and 'continue') of the dead-label programs and of the case lists of length <= 2 written as the selected
+	// case of a poryswitch (brace form, colon form, selected through '_'): the program means the same; in particular a break
+	// may be followed by further statements of the case body, which a label makes reachable
+	var brk []engineProgram
+	for i, sc := range deadLabelPrograms() {
+		brk = append(brk, engineProgram{Desc: fmt.Sprintf("dead-label program %d", i), Script: sc})
+	}
+	for n := 1; n <= 2; n++ {
+		pow := 1
+		for i := 0; i < n; i++ {
+			pow *= c03BodiesLoop
+		}
+		for x := 0; x < (n+1)*pow*c03Contexts; x++ {
+			ctx, y := x%c03Contexts, x/c03Contexts
+			if ctx == 7 {
+				continue
+			}
+			defPos := y % (n + 1)
+			y /= n + 1
+			bodies := make([]int, n)
+			valid := true
+			for i := range bodies {
+				bodies[i] = y % c03BodiesLoop
+				y /= c03BodiesLoop
+				valid = valid && (bodies[i] != 9 || c03InLoop(ctx))
+			}
+			if valid {
+				brk = append(brk, engineProgram{Desc: fmt.Sprintf("case list n=%d default=%d bodies=%v ctx=%d", n, defPos, bodies, ctx), Script: c03Program(n, defPos, bodies, ctx)})
+			}
+		}
+	}
+	brkDone := r.Parallel(uint64(len(brk))*3, func(w int, idx uint64) {
+		p, form := brk[idx/3], int(idx%3)
+		scripts := []*model.Script{p.Script}
+		src, nrep := wrapJumpsInPoryswitch(model.Print(scripts), form)
+		if nrep == 0 {
+			return
+		}
+		r.Add("programs", 1)
+		r.Add("break_in_poryswitch_programs", 1)
+		o := comp.Opts{Switches: map[string]string{"PV": "SEL"}}
+		for _, opt := range []bool{true, false} {
+			ok, rej, st, v, out := checkScripts(scripts, src, opt, machine.Lazy, &o)
+			if !ok {
+				r.Report(harness.Violation{Sig: "C03:break-in-poryswitch:rejected:" + firstWords(rej, 6), Summary: fmt.Sprintf("%s with its break / continue statements inside poryswitch cases (form %d) rejected: %s\n  source: %q", p.Desc, form, rej, src), Replay: map[string]interface{}{"source": src, "switches": o.Switches, "error": rej}})
+				continue
+			}
+			r.Add("evaluations", 1)
+			r.Add("nontrivial", 1)
+			addStats(r, st)
+			if v != nil {
+				r.Report(harness.Violation{Sig: violationSig("C03", v) + ":break-in-poryswitch", Summary: fmt.Sprintf("%s with its break / continue statements inside poryswitch cases (form %d) optimize=%v: %s", p.Desc, form, opt, v), Replay: map[string]interface{}{"desc": p.Desc, "source": src, "switches": o.Switches, "optimize": opt, "reference_next_event": v.A.String(), "emitted_next_event": v.B.String(), "observable_prefix": v.Trace, "emitted_assembly": out}})
+			}
+		}
+	})
+	if !brkDone {
+		r.NotExhaustive("break-in-poryswitch programs not completed")
+	}
 	if completed < maxN {
 		r.NotExhaustive(fmt.Sprintf("completed case lists of length <= %d of planned <= %d", completed, maxN))
 	}
@@ -397,7 +457,7 @@ func runC03(tier string) int {
 	r.Assume("reference switch rule: a body-less entry shares the next entry that has a body; trailing body-less entries go to the statement after the switch; default runs iff no case value matches; bodies never fall through; break leaves the switch",
 		"var domain = every case value, its neighbours and 0 (always contains a non-matching value)")
 	return r.Finish(r.Get("evaluations"), r.Get("nontrivial"),
-		"every case list of length n (default at any position or absent) x every assignment of bodies from an 11-body alphabet (a body ending in a hand-written goto_if_set, empty, cmd, cmd+break, break+dead tail, if-break, while-with-break, nested switch, labelled body with goto into it, cmd+end, if-continue in loops; reduced alphabet at n>=5) x 10 contexts (alone, first/middle/last, in while, in do-while, in another switch, in infinite while, with case values written as constant expressions, followed by a plain return at the end of an if block or of another switch's case body) x optimize on/off, each also written on a single source line and compiled with line markers (explored again whenever the marker-stripped output differs); plus every case list of length <= 2 (thorough 3) as the statement of a poryswitch case (4 forms) with a var and with AutoVar command operands; plus the dead-label programs (labelled statements after a break in cases, also inside an if whose case body goes on); plus switches with K cases and switches nested K deep for every K up to the scale bounds; non-trivial = >= 2 entries and >= 3 distinct observable events")
+		"every case list of length n (default at any position or absent) x every assignment of bodies from a 12-body alphabet (a body that is only a break, a body ending in a hand-written goto_if_set, empty, cmd, cmd+break, break+dead tail, if-break, while-with-break, nested switch, labelled body with goto into it, cmd+end, if-continue in loops; reduced alphabet at n>=5) x 10 contexts (alone, first/middle/last, in while, in do-while, in another switch, in infinite while, with case values written as constant expressions, followed by a plain return at the end of an if block or of another switch's case body) x optimize on/off, each also written on a single source line and compiled with line markers (explored again whenever the marker-stripped output differs); plus every case list of length <= 2 (thorough 3) as the statement of a poryswitch case (4 forms) with a var and with AutoVar command operands; plus the dead-label programs (labelled statements after a break in cases, also inside an if whose case body goes on); plus the dead-label programs and all case lists of length <= 2 with every break / closing continue written as the selected case of a poryswitch (3 forms); plus switches with K cases and switches nested K deep for every K up to the scale bounds; non-trivial = >= 2 entries and >= 3 distinct observable events")
 }
 
 // oneLine rewrites a generated source so that every statement sits on one line
@@ -432,4 +492,30 @@ func dropMarkerLines(out string) string {
 		sb.WriteString(l)
 	}
 	return sb.String()
+}
+
+// wrapJumpsInPoryswitch rewrites every line that is exactly 'break' (or a 'continue' that closes its block) as a poryswitch on PV
+// whose selected case (compiled with PV=SEL) is that statement. form 0: brace case, 1: colon case, 2: selected through '_'.
+func wrapJumpsInPoryswitch(src string, form int) (string, int) {
+	lines := strings.Split(src, "\n")
+	var out []string
+	n := 0
+	for i, l := range lines {
+		t := strings.TrimLeft(l, "\t")
+		ind := l[:len(l)-len(t)]
+		if t != "break" && !(t == "continue" && i+1 < len(lines) && strings.TrimLeft(lines[i+1], "\t") == "}") {
+			out = append(out, l)
+			continue
+		}
+		n++
+		switch form {
+		case 0:
+			out = append(out, ind+"poryswitch(PV) {", ind+"\tSEL {", ind+"\t\t"+t, ind+"\t}", ind+"\t_ {", ind+"\t\tother", ind+"\t}", ind+"}")
+		case 1:
+			out = append(out, ind+"poryswitch(PV) {", ind+"\tSEL: "+t, ind+"\t_: other", ind+"}")
+		default:
+			out = append(out, ind+"poryswitch(PV) {", ind+"\tNOPE { other }", ind+"\t_ { "+t+" }", ind+"}")
+		}
+	}
+	return strings.Join(out, "\n"), n
 }
